@@ -1,6 +1,8 @@
 """C10 — results are independent of call history (memoisation is transparent), on one or several threads."""
 import collections
 import gc
+import fractions
+import pathlib
 import itertools
 import sys
 import threading
@@ -520,6 +522,45 @@ def run(ctx):
                           mech=f"generic:{bad[0]}")
 
     drive.for_each_case(ctx, 'generic', 3, generic_history, gen=lambda c, r: Ty('int'), seconds=120)
+
+    # generic dataclasses subscripted with arguments that compare equal but mean different things (a union in two member orders,
+    # Literal[0, False] / Literal[False, 0]): whichever is seen first, each parametrisation converts by ITS argument
+    def generic_twins(i, rng, ty_unused, T_unused):
+        import types as _types
+        TV = t.TypeVar('TV')
+        G = _types.new_class(f"GT{next(_serial)}", (env.PaneBase, t.Generic[TV]), {},
+                             lambda ns: ns.update({'__annotations__': {'x': TV}, '__module__': __name__}))
+        a, b, v = rng.choice(((int, float, 1), (float, complex, 1.5), (str, pathlib.PurePosixPath, 'a/b'), (bool, int, True), (int, fractions.Fraction, 3)))
+        kind = rng.choice(('union', 'optional-union', 'list-of-union', 'literal'))
+        if kind == 'union':
+            args = [t.Union[a, b], t.Union[b, a]]
+        elif kind == 'optional-union':
+            args = [t.Union[a, b, None], t.Union[b, a, None]]
+        elif kind == 'list-of-union':
+            args = [list[t.Union[a, b]], list[t.Union[b, a]]]
+            v = [v]
+        else:
+            args = [t.Literal[0, False], t.Literal[False, 0]]
+            v = rng.choice((0, False))
+        if rng.random() < 0.5:
+            args.reverse()
+        for A in args:
+            P = observe(lambda: G[A])
+            if P.kind != 'value':
+                ctx.count('generic_twin_unbuildable')
+                return
+            got = observe(P.val.from_data, {'x': v})
+            want = observe(env.from_data, v, A)       # the argument on its own (a fresh type object each time: no cache can confuse it)
+            ctx.count('generic_twin_checks')
+            ctx.case(('generic-twins', kind, got.kind), nontrivial=True)
+            ok = got.kind == want.kind and (got.kind != 'value' or (deep_typed_eq(want.val, got.val.x)[0] and deep_typed_eq(got.val.x, want.val)[0]))
+            if not ok:
+                ctx.violation('generic-subclass-history', 'generic-twins', i,
+                              {'parametrisations_in_order_seen': [short(x, 120) for x in args], 'this_argument': short(A, 120), 'value': short(v, 80),
+                               'through_the_generic_class': got.brief(), 'argument_alone': want.brief()}, mech=f"generic:equal-arguments-share-a-subclass:{kind}")
+                return
+
+    drive.for_each_case(ctx, 'generic-twins', max(20, ctx.budget), generic_twins, gen=lambda c, r: Ty('int'), seconds=60)
 
     with mon_lock:
         ctx.count('cache_hits', stats['hits'])
